@@ -1,12 +1,16 @@
-(* Extraction of the executable definitions.  Only ExtrOcamlBasic: numbers stay
-   Coq datatypes (positive, Z, Q, nat).  Compiled from the ocaml/gen directory
-   by tools/build_model.sh so that model.ml lands there. *)
-From Coq Require Import Extraction ExtrOcamlBasic.
+(* Extraction of the executable definitions.  Only ExtrOcamlBasic (+ ExtrOcamlString
+   for ascii/string): numbers stay Coq datatypes (positive, Z, Q, nat).  Compiled from
+   the ocaml/gen directory by tools/build_model.sh so that model.ml lands there. *)
+From Coq Require Import Extraction ExtrOcamlBasic ExtrOcamlString.
 From QSX Require Import Base.QSum LP.ILP LP.Cert LP.User LP.OptTest LP.Driver.
+(* one Require line per area may be added below *)
+
 Extraction Language OCaml.
 Extraction "model.ml"
   radd rsub rmul rdiv Qred Qeq_bool Qle_bool Qltb Qplus Qmult Qminus Qopp Qinv
   inf_none inf_sentinel check_kkt check_farkas check_ray dz_l
   to_internal ilp_eqb wf_ulp
   opt_test infeas_test wf_logicals
-  exact_solver_gen exact_solver.
+  exact_solver_gen exact_solver
+  (* add names below, one line per area *)
+  .
